@@ -22,6 +22,21 @@ def candidates(text):
     return out
 
 
+def set_string_keys(s1):
+    """the (allowInfinity, text) lookups parseSet / parseSpan make on a printed set"""
+    keys = set()
+    inner = s1[1:-1] if len(s1) >= 2 else b""
+    for span in inner.split(b","):
+        if span[:1] in (b"[", b"(") and span[-1:] in (b"]", b")"):
+            parts = span[1:-1].split(b":")
+            if len(parts) == 2:
+                keys.add((0, parts[0]))
+                keys.add((1, parts[1]))
+        elif span and span != b"<empty>":
+            keys.add((0, span))
+    return keys
+
+
 def check_dump(sysi, allow, text, outcome):
     """The clauses of oracle_wf (coq/Semver/Total_span.v), the hypothesis of the totality theorems
     C04_constraint_total / C04_set_constraint_total / C04_match_total, checked on one answer of
